@@ -33,6 +33,7 @@ type Dimensions struct {
 	W, H int
 	D    uint8
 	G    Grade
+	rev  int // not exported: part of the composite all the same
 }
 
 // Grade is an integer enum that knows how to print itself.
